@@ -346,16 +346,7 @@ func runC23(c *Ctx) {
 		okBuf := len(rd) == 1 && argIdentVar(info, rd[0].cs.Call, 1) != nil && argIdentVar(info, rd[0].cs.Call, 1) == argIdentVar(info, um[0].cs.Call, 0) && isParamOf(f, argIdentVar(info, um[0].cs.Call, 0))
 		c.Check(okBuf, r1, "readAndRestoreBlock: the verified buffer is the one read and handed back", um[0].cs.Call.Pos(), "same parameter buffer", "the checksum is not computed over the caller's buffer as read", nil)
 	}
-	// restoreFromCow
-	{
-		fr := w.Fn(kHMrestoreCow)
-		gr := w.G(fr)
-		c.Analysed(fr)
-		cp := gr.Find(calls("builtin.copy"))
-		offs := gr.MustPrecede(calls("builtin.copy"), func(n *GNode) bool { return n.Ret != nil && gr.ClassifyReturn(n) != RetNonNil })
-		c.Check(len(cp) == 1, r1, "restoreFromCow: copies the backup into the caller's buffer", fr.Decl.Pos(), "one copy(alignedBuffer, cowData)", fmt.Sprintf("found %d copy calls", len(cp)), nil)
-		c.Offences(gr, offs, r1, "restoreFromCow: success only after the verified backup was copied in", fr.Decl.Pos(), "every non-error return is dominated by copy(alignedBuffer, cowData)", "restoreFromCow reports success without having put verified bytes into the buffer (e.g. empty backup): the caller then uses the corrupt block")
-	}
+	cowRestoreRule(c, r1)
 
 	r2 := c.Rule("R2", "block bytes are read only through readAndRestoreBlock", 3)
 	callers := callersOf(w, kDIOreadAt)
@@ -959,4 +950,17 @@ func rmwRule(c *Ctx, r string) {
 		}
 	}
 	c.Check(n >= 1, r, "callers of writeBlockRegionPayload inventoried", token.NoPos, fmt.Sprintf("%d write site(s)", n), "no write site found", nil)
+}
+
+// cowRestoreRule (part of C23.R1, shared by C08.R5): restoreFromCow reports success only after it copied the
+// verified pre-image into the caller's buffer - for every kind of caller, read-only ones included.
+func cowRestoreRule(c *Ctx, r1 string) {
+	w := c.W
+	fr := w.Fn(kHMrestoreCow)
+	gr := w.G(fr)
+	c.Analysed(fr)
+	cp := gr.Find(calls("builtin.copy"))
+	offs := gr.MustPrecede(calls("builtin.copy"), func(n *GNode) bool { return n.Ret != nil && gr.ClassifyReturn(n) != RetNonNil })
+	c.Check(len(cp) == 1, r1, "restoreFromCow: copies the backup into the caller's buffer", fr.Decl.Pos(), "one copy(alignedBuffer, cowData)", fmt.Sprintf("found %d copy calls", len(cp)), nil)
+	c.Offences(gr, offs, r1, "restoreFromCow: success only after the verified backup was copied in", fr.Decl.Pos(), "every non-error return is dominated by copy(alignedBuffer, cowData)", "restoreFromCow reports success without having put verified bytes into the buffer (e.g. empty backup): the caller then uses the corrupt block")
 }
